@@ -150,6 +150,7 @@ def run_property(pid, tier):
                 undecided.append("kani harness %s: %s (rc=%s) %s" % (h["id"], r["status"], r["rc"], r["raw_tail"][-400:].replace("\n", " | ")))
     # ---------------------------------------------------------------- structural obligations
     structural = []
+    s_failed = []
     for name in cfg.get("structural", []):
         fn = getattr(S, name, None)
         if fn is None:
@@ -157,8 +158,8 @@ def run_property(pid, tier):
         for res in fn(C.REPO):
             structural.append(res)
             if res["status"] == "failed":
-                failed.append({"id": res["id"], "fn": res.get("fn", "?"), "kind": "structural", "status": "failed", "backend": "structural-scan",
-                               "where": res.get("where"), "message": res.get("message", ""), "unit": "structural", "verifier_output": res.get("message", "")})
+                s_failed.append({"id": res["id"], "fn": res.get("fn", "?"), "kind": "structural", "status": "failed", "backend": "structural-scan",
+                                 "where": res.get("where"), "message": res.get("message", ""), "unit": "structural", "verifier_output": res.get("message", "")})
             elif res["status"] == "undecided":
                 undecided.append("structural %s: %s" % (res["id"], res.get("message")))
     # ---------------------------------------------------------------- thorough tier: the witness searches run proactively
@@ -201,6 +202,24 @@ def run_property(pid, tier):
                 seen_ids.add(nid)
                 failed.append({"id": nid, "fn": x.get("fn"), "kind": "native-witness", "status": "failed", "backend": "native-search",
                                "where": w["target"], "message": "%s (expected: %s)" % (x.get("observed"), x.get("expected")), "unit": u, "verifier_output": json.dumps(x), "native_witness": x})
+    # a structural obligation is a statement about the SHAPE of the code (a call-site scan): when the shape is gone the argument no longer
+    # applies, which is not the same as the property being broken (a harmless refactoring changes shapes too). It counts as a violation only
+    # when the property's bounded native search exhibits a failing input on the tree under test; otherwise the check is undecided (exit 2).
+    if s_failed:
+        fb = cfg.get("fallback_witness")
+        confirmed = False
+        if fb in P.WITNESS:
+            try:
+                wits, wlog, ok, stats, cmd = W.run_witness(pid + "-s", P.WITNESS[fb]["target"], os.path.join(C.VERIF, P.WITNESS[fb]["src"]))
+            except Exception as e:
+                wits, ok = [], False
+            native_search.append({"unit": fb, "ran": ok, "witnesses": len(wits), "reason": "confirmation of a failed structural obligation"})
+            confirmed = bool(wits)
+        if confirmed or any(f for f in failed):
+            failed += s_failed          # reported with the witness (report_violations attaches it) / next to a verifier failure
+        else:
+            for f in s_failed:
+                undecided.append("structural obligation %s no longer matches the code (%s) and no failing input was found: not decidable by a call-site scan" % (f["id"], f.get("message", "")[:160]))
     # ---------------------------------------------------------------- triage of failures
     violations, known_hits = [], []
     for f in failed:
